@@ -699,6 +699,25 @@ def case_views(kind, rng, ctx):
     ctx.state((kind, tuple(ref_starts(seg)), len(seg)))
     check_starts(ctx, kind, arr, seg, rid, name, ch)
     check_family(ctx, rng, Fam(kind, arr=arr), arr, seg)
+    # history on the same object: edit the defining annotations in place, then every view must follow
+    # (a result remembered from the first round would be stale now)
+    n = len(seg)
+    if n >= 2 and rng.random() < 0.5:
+        for _ in range(int(rng.integers(1, 4))):
+            i = int(rng.integers(0, n))
+            j = int(rng.integers(i, n)) + 1
+            what = str(rng.choice(["chain_id", "res_id", "ins_code", "res_name"]))
+            pool = {"chain_id": ch, "res_id": rid, "ins_code": ins, "res_name": name}[what]
+            val = pool[int(rng.integers(0, n))] if rng.random() < 0.6 else {"chain_id": "Zq", "res_id": int(rng.integers(-3, 60)), "ins_code": "Q", "res_name": "QQQ"}[what]
+            ctx.log("inplace_edit", what, i, j, val)
+            ctx.op("inplace_edit_then_requery")
+            arr.get_annotation(what)[i:j] = val
+            for k in range(i, j):
+                pool[k] = val
+        assert arr.chain_id.tolist() == ch and arr.res_id.tolist() == rid and arr.ins_code.tolist() == ins and arr.res_name.tolist() == name
+        seg2 = ref_segments(kind, ch, rid, ins, name)
+        check_starts(ctx, kind, arr, seg2, rid, name, ch)
+        check_family(ctx, rng, Fam(kind, arr=arr), arr, seg2, n_apply=1)
 
 
 def case_generic(rng, ctx):
